@@ -20,6 +20,13 @@ type objects struct {
 	lset  bool   // SetContext was called on the lexer since it was created (possibly with nil)
 	usedP bool
 	cache tokCache
+	kept  []keptResult // what the used parser returned, to be looked at again when the history is over
+}
+
+type keptResult struct {
+	at   int
+	out  *Outcome
+	then string
 }
 
 // execOps runs a history on objs.  For every observing operation it returns
@@ -49,6 +56,9 @@ func (e *env) execOps(ops []Op, o *objects, sess *act.Session, budget int64, per
 			sess.Ctx = o.pctx
 			u := e.runParse(o.p, e.newLexFor(op.In, nil), op.In, op.Fault, sess, o.cache)
 			o.usedP = true
+			if perOp != nil && u.Panic == "" {
+				o.kept = append(o.kept, keptResult{at: i, out: u, then: e.again(u, sess)})
+			}
 			var f string
 			if perOp != nil {
 				pf := e.g.NewParser()
@@ -138,6 +148,9 @@ func (e *env) execOps(ops []Op, o *objects, sess *act.Session, budget int64, per
 			in := &Input{Text: o.lsrc}
 			sess.Ctx = o.pctx
 			u := e.runParse(o.p, o.l, in, op.Fault, sess, nil)
+			if perOp != nil && u.Panic == "" {
+				o.kept = append(o.kept, keptResult{at: i, out: u, then: e.again(u, sess)})
+			}
 			var f string
 			if perOp != nil {
 				pf := e.g.NewParser()
@@ -194,6 +207,32 @@ func runC16(g Glue, j *Job, res *JobResult) {
 				Detail: fmt.Sprintf("operation %d (%s) on the used object differs from the same call on a fresh object: %s", i, op.Op, firstDiff(used, fresh))})
 		}
 	})
+	// What a Parse returned must still be what it returned when the history is over:
+	// a fresh parser's result is never touched again, so a result that a LATER Parse
+	// on the same object rewrites is a result that depends on the history.  (Not
+	// judged where the harness itself changes the objects afterwards: a refilled
+	// source buffer, tokens modified in place by a later action.)
+	lastWrite := -1
+	for i := range j.Ops {
+		if j.Ops[i].Op == "lexrefill" || j.Ops[i].Fault != nil && j.Ops[i].Fault.MutateToks {
+			lastWrite = i
+		}
+	}
+	for _, k := range o.kept {
+		if k.at <= lastWrite {
+			continue
+		}
+		res.Stats["results-looked-at-again"]++
+		gsim.Cur().Steps = 0
+		var now string
+		if d := guard(func() { now = e.again(k.out, sess) }); d != "" {
+			now = d
+		}
+		if now != k.then {
+			res.Violations = append(res.Violations, Viol{Class: "earlier-result-rewritten", At: k.at,
+				Detail: fmt.Sprintf("what operation %d (%s) returned has been modified by the time the history is over (a later call on the same parser wrote into it): %s", k.at, j.Ops[k.at].Op, firstDiff(now, k.then))})
+		}
+	}
 	res.Stats["ops"] = len(j.Ops)
 	res.Digest = fmt.Sprintf("%016x", dg)
 }
